@@ -53,9 +53,16 @@ Definition life_names (g : generics) : list string := map gp_name (filter is_lif
 Definition lift_where (lts : list string) (tg : trait_generics) (w : wpred) : trait_generics :=
   if mentions_lifetime lts (wp_toks w) then tg else tg_push_where tg w.
 
-(** [extract_trait_bounds]: a relaxed bound ([?Sized]) is not a requirement on the dependency *)
+(** [extract_trait_bounds]: a relaxed bound ([?Sized]) is not a requirement on the dependency; a lifetime parameter of the
+    function ([D: 'a]) cannot be named on the impl, where it is not declared (and the method's [&'a self] implies it) *)
 Definition is_relaxed (b : toks) : bool := starts_with_punct "?"%char b.
-Definition trait_bounds (l : list toks) : list toks := filter (fun b => negb (is_relaxed b)) l.
+Definition is_fn_lifetime (lts : list string) (b : toks) : bool :=
+  match b with
+  | [q; TId n] => is_p "'" q && str_mem n lts
+  | _ => false
+  end.
+Definition trait_bounds (lts : list string) (l : list toks) : list toks :=
+  filter (fun b => negb (is_relaxed b) && negb (is_fn_lifetime lts b)) l.
 
 (** [with_bound_lifetimes]: the bounds of a higher-ranked predicate [for<'a> D: Bound<'a>] on the dependency are copied
     into [Self: ..], so the binder moves onto each trait bound that has none of its own ([Self: for<'a> Bound<'a>]).
@@ -73,7 +80,7 @@ Definition with_binder (binder b : toks) : toks :=
   | _ => if takes_binder b then binder ++ b else b
   end.
 (** what a where predicate on the dependency contributes to its bounds *)
-Definition pred_bounds (w : wpred) : list toks := map (with_binder (wp_binder w)) (trait_bounds (wp_bounds w)).
+Definition pred_bounds (lts : list string) (w : wpred) : list toks := map (with_binder (wp_binder w)) (trait_bounds lts (wp_bounds w)).
 
 Definition where_items (g : generics) : list wpred :=
   match g_where g with Some p => p_items p | None => [] end.
@@ -111,7 +118,7 @@ Definition deps_where_step (lts : list string) (deps_name : string) (acc : list 
     | BPath qself leading nsegs first =>
         if qself || leading then (bounds, lift_where lts tg w)
         else if negb (Nat.eqb nsegs 1) then (bounds, lift_where lts tg w)
-        else if String.eqb first deps_name then (bounds ++ pred_bounds w, tg)
+        else if String.eqb first deps_name then (bounds ++ pred_bounds lts w, tg)
         else (bounds, tg)      (* a predicate on another single-segment type: dropped from the trait *)
     | BOther => (bounds, lift_where lts tg w)
     end
@@ -123,14 +130,14 @@ Definition find_deps_generic_bounds (tg : trait_generics) (g : generics) (name :
   | None => None
   | Some (idx, p) =>
       let tg1 := push_others (p_items (g_params g)) 0 idx tg in
-      let '(bounds, tg2) := fold_left (deps_where_step (life_names g) name) (where_items g) (trait_bounds (gp_bounds p), tg1) in
+      let '(bounds, tg2) := fold_left (deps_where_step (life_names g) name) (where_items g) (trait_bounds (life_names g) (gp_bounds p), tg1) in
       Some (DGeneric (Some name) bounds, tg2)
   end.
 
 Fixpoint extract_deps_from_type (tg : trait_generics) (g : generics) (ty : fty)
   : result (fn_deps * trait_generics) :=
   match ty with
-  | TyImpl _ bounds => Ok (DGeneric None (trait_bounds bounds), deps_with_generics tg g)
+  | TyImpl _ bounds => Ok (DGeneric None (trait_bounds (life_names g) bounds), deps_with_generics tg g)
   | TyPath qself leading nsegs first _ =>
       if qself then Err (EMsg "No self allowed")
       else if leading then Err (EMsg "No leading colon allowed")
